@@ -278,9 +278,9 @@ impl File {
 
     #[cfg(pearl_verif)]
     fn verif_is_create(setup: &impl Fn(&mut OpenOptions) -> &mut OpenOptions) -> bool {
-        // an options set that asks for `append` formats with `append: true` in its Debug output
+        // an options set that asks for `create` formats with `create: true` in its Debug output
         let mut o = OpenOptions::new();
-        !format!("{:?}", setup(&mut o)).contains("append: true")
+        format!("{:?}", setup(&mut o)).contains("create: true")
     }
 
     async fn from_tokio_file(file: TokioFile) -> IOResult<Self> {
